@@ -59,6 +59,15 @@ Theorem c02_skipcmp_inv : forall (K V : Type) (cmp : K -> K -> comparison) (v0 :
 Proof. exact skip_inv_cmp. Qed.
 Print Assumptions c02_skipcmp_inv.
 
+(* the tower height read back by the harness (len(node.next)) is, in the model, the number of levels holding the
+   node: under the invariant k is in level j exactly for j < height, 1 <= height <= level *)
+Theorem c02_height_is_tower : forall (K V : Type) (cmp : K -> K -> comparison), total_order K cmp ->
+  forall (s : sk K V) k, inv K V cmp s ->
+  (forall j, (j < maxL)%nat -> In k (nth j (levels s) []) <-> (j < height K V cmp s k)%nat) /\
+  (height K V cmp s k <= level s)%nat /\ (In k (keys0 K V s) -> (1 <= height K V cmp s k)%nat).
+Proof. exact height_is_tower. Qed.
+Print Assumptions c02_height_is_tower.
+
 (* per operation, on any state satisfying the invariant *)
 (* RangeWithStart: the callback is called on exactly the bindings with key >= start, ascending, up to and including
    the first one it rejects, whether or not start is present ([f] may depend on the call index, the key, the value) *)
